@@ -236,13 +236,13 @@ function readUpdatableData<TReadFromStore extends UnknownTReadFromStore>(
               nestedRefetchQueries,
               networkRequest,
               networkRequestOptions,
-              (ast, root) =>
+              (ast, root, childVariables) =>
                 readUpdatableData(
                   environment,
                   storeLayer,
                   ast,
                   root,
-                  variables,
+                  childVariables ?? variables,
                   nestedRefetchQueries,
                   networkRequest,
                   networkRequestOptions,
